@@ -91,6 +91,11 @@ class Config(Bunch, metaclass=NamespaceableMeta):
                 yaml = '{ '
                 if key[0] != '!' and default_inline_tag:
                     yaml = default_inline_tag + ' { '
+                elif key[0] == '!' and len(key.split(None, 1)) == 2:
+                    # a tag typed in front of the name takes the place of the default one - in front of the mapping the option
+                    # is turned into, not on the key inside of it, where it would be ignored
+                    tag, key = key.split(None, 1)
+                    yaml = tag + ' { '
 
                 ind = 0
                 for part in key.split('.'):
